@@ -441,7 +441,8 @@ void newlines_cleanup_braces(bool first)
                   // Step back from next to the first non-newline item
                   Chunk *tmp = next->GetPrev();
 
-                  while (tmp != pc)
+                  while (  tmp->IsNotNullChunk()
+                        && tmp != pc)
                   {
                      if (tmp->IsComment())
                      {
